@@ -183,10 +183,10 @@ impl Scenario for C02S {
     }
     fn count(&self, tier: Tier, variant: &str) -> u64 {
         match (tier, variant) {
-            (Tier::Quick, "os") => 6000,
-            (Tier::Quick, _) => 1500,
-            (Tier::Thorough, "os") => 400_000,
-            (Tier::Thorough, _) => 100_000,
+            (Tier::Quick, "os") => 30_000,
+            (Tier::Quick, _) => 8000,
+            (Tier::Thorough, "os") => 1_200_000,
+            (Tier::Thorough, _) => 300_000,
         }
     }
     fn rule(&self) -> &'static str {
